@@ -52,10 +52,10 @@ WrongNeverAccepted ==
 (* a batch is accepted exactly when the sequence of its Encode / Decode steps is: the first pair must   *)
 (* come back unchanged, the second one too unless its encode was refused                               *)
 BatchIsSequence ==
-    [][\A c \in Codecs, x1 \in D, x2 \in D, y1 \in D, y2 \in D, e2 \in BOOLEAN, d1 \in BOOLEAN :
-         (Fresh + 1 \in Blobs) =>
-           ((ENABLED Roundtrips(c, << Item(x1, TRUE, Fresh, x1.len, d1, y1), Item(x2, e2, Fresh + 1, x2.len, TRUE, y2) >>))
-             <=> (d1 /\ y1 = x1 /\ (e2 => y2 = x2)))]_csvars
+    \A c \in Codecs, x1 \in D, x2 \in D, y1 \in D, y2 \in D, e2 \in BOOLEAN, d1 \in BOOLEAN :
+        (Fresh + 1 \in Blobs) =>
+          ((ENABLED Roundtrips(c, << Item(x1, TRUE, Fresh, x1.len, d1, y1), Item(x2, e2, Fresh + 1, x2.len, TRUE, y2) >>))
+            <=> (d1 /\ y1 = x1 /\ (e2 => y2 = x2)))
 (* blob ids are dense and a blob's record never changes *)
 BlobsDense == DOMAIN enc = 1..Cardinality(DOMAIN enc)
 BlobsImmutable == [][\A b \in DOMAIN enc : b \in DOMAIN enc' /\ enc'[b] = enc[b]]_csvars
